@@ -138,11 +138,20 @@ class GenericGen:
     def coef(self):
         return self.sg.coef()
 
+    def compound(self):
+        """a function-free factor mixing a Constant with a coordinate function (not a flat product):
+        it is NOT a constant coefficient (added after seeded change C01-3)"""
+        r, env = self.rng, self.env
+        x, c = r.choice(env.coords), r.choice(env.cst)
+        return r.choice([x + c, sympy.exp(c * x), sympy.sin(c * x), (x + c) ** 2, c * x + x ** 2])
+
     def scalar(self, depth=0):
         r, env, C = self.rng, self.env, self.C
         d = env.dim
         if depth >= self.maxdepth:
             return r.choice(env.sf)
+        if r.random() < 0.07:
+            return self.compound() * self.scalar(depth + 1)
         k = r.random()
         if k < 0.14:
             return r.choice(env.sf)
